@@ -44,7 +44,26 @@ def idle_disjuncts(test: ast.AST, self_: str) -> set[str]:
                 node = rw(node)
             return node
 
-    test = _Rw().visit(_copy.deepcopy(test))
+    from sa.facts import _ifexp_as_boolop, _unbool
+
+    class _Spell(ast.NodeTransformer):  # bool(x) is x; `n if q else 0` is `q and n`; "a queue and something in it" counts as the queue-size disjunct
+        def visit_Call(self, node):  # noqa: N802
+            self.generic_visit(node)
+            return _unbool(node) if isinstance(node.func, ast.Name) and node.func.id == 'bool' else node
+
+        def visit_IfExp(self, node):  # noqa: N802
+            self.generic_visit(node)
+            return self.visit(_ifexp_as_boolop(node)) if isinstance(_ifexp_as_boolop(node), ast.BoolOp) else node
+
+        def visit_BoolOp(self, node):  # noqa: N802
+            self.generic_visit(node)
+            node.values = [_unbool(v) for v in node.values]  # (`q.qsize() > 0` as `q.qsize()`)
+            if isinstance(node.op, ast.And) and len(node.values) == 2 and U(node.values[1]).endswith('.qsize()') and 'event_queue' in U(node.values[1]) \
+                    and U(node.values[0]) in (U(node.values[1])[:-len('.qsize()')], U(node.values[1])[:-len('.qsize()')] + ' is not None'):
+                return node.values[1]
+            return node
+
+    test = _Spell().visit(_Rw().visit(_copy.deepcopy(test)))
     lits = _nnf_disjuncts(test)
     if lits is None:
         return {'?' + U(test)}
@@ -224,10 +243,18 @@ def c15_2(c: Ctx) -> None:
         qatom = qs[0] if qs else f'{self_}.event_queue.qsize()'
         atoms = {f'{self_}.events_pending', f'{self_}.events_started', qatom}
         qrecv = qatom[:-len('.qsize()')] if qatom.endswith('.qsize()') else f'{self_}.event_queue'
-        some_queued = f'{qrecv} is not None and {qatom}'  # "something is queued" may be spelled with the no-queue case in front: no queue, nothing queued
-        facts = Facts(lambda a: a in atoms or a.isidentifier() or a in (qrecv, some_queued), cg=c.cg, unit=u)  # (locals too: a verdict held in a flag, the result of a folded helper)
-        guard = f'not ({self_}.events_pending or {self_}.events_started or ({some_queued}))'
-        bad = [p for n in g.nodes_of(q.stmt_of(call)) if (p := q.guard_search(g, n, guard, facts)) is not None]
+        # "something is queued" may be spelled with the no-queue case in front (no queue, nothing queued); a Queue object is always truthy, so `q and ..` is `q is not None and ..`
+        variants = [f'{qrecv} is not None and {qatom}', f'{qrecv} and {qatom}']
+        bad = None
+        for some_queued in variants:
+            facts = Facts(lambda a, some_queued=some_queued: a in atoms or a.isidentifier() or a in (qrecv, some_queued), cg=c.cg, unit=u)  # (locals too: a verdict held in a flag, the result of a folded helper)
+            guard = f'not ({self_}.events_pending or {self_}.events_started or ({some_queued}))'
+            bad_v = [p for n in g.nodes_of(q.stmt_of(call)) if (p := q.guard_search(g, n, guard, facts)) is not None]
+            if bad is None or not bad_v:
+                bad = bad_v
+            if not bad_v:
+                break
+        guard = f'not ({self_}.events_pending or {self_}.events_started or ({variants[0]}))'
         if not bad:
             c.ok(where(u, call), f'flag set only when `{guard}` is known')
         else:
